@@ -349,6 +349,14 @@ def fn_uf(case, ctx):
     form, arg, yielded, source = make_elements(case.get("init_form", "list"), init)
     if form == "noarg":
         ok, uf = ctx.call("uf:construct", UnionFind)
+    elif form in ONE_SHOT:
+        # the docstring speaks of a "container": a constructor that REJECTS a one-shot iterable (TypeError / ValueError) is within
+        # its rights; what it may not do is accept it and build something else than what the iterable yields
+        try:
+            ok, uf = True, UnionFind(arg)
+        except (TypeError, ValueError):
+            ctx.label("one-shot-iterable-rejected")
+            return
     else:
         ok, uf = ctx.call("uf:construct", UnionFind, arg)
     if not ok:
